@@ -234,7 +234,12 @@ def check_rename(ctx: Context, rep, rule: str) -> None:
                message="exactly one temp-file create and one rename expected")
         return
     op, rp = opens[0], repl[0]
-    tmp_expr = op.ast.args[0] if op.ast.args else None
+    # open(tmp, mode)  or  tmp.open(mode)
+    method_open = isinstance(op.ast.func, ast.Attribute) and \
+        op.ast.func.attr == "open" and not ctx.names(fn, op.ast) & {
+            "aiofiles.open", "io.open", "gzip.open", "bz2.open", "lzma.open"}
+    tmp_expr = op.ast.func.value if method_open else (
+        op.ast.args[0] if op.ast.args else None)
     target_expr = rp.ast.args[0] if rp.ast.args else None
     recv = rp.ast.func.value if isinstance(rp.ast.func, ast.Attribute) else None
     tmp_name = dotted(tmp_expr)
@@ -251,8 +256,21 @@ def check_rename(ctx: Context, rep, rule: str) -> None:
         if isinstance(n, ast.Assign) and any(dotted(t) == tmp_name
                                              for t in n.targets):
             tdef = n.value
-    ok_dir = isinstance(tdef, ast.BinOp) and isinstance(tdef.op, ast.Div) and \
-        ast.unparse(tdef.left) == f"{target_name}.parent"
+    # <target>.parent / NAME, <target>.parent.joinpath(NAME),
+    # <target>.with_name(NAME) - temporaries expanded
+    from sa.norm import expand as _expand
+    tdx = _expand(fn, tdef) if tdef is not None else None
+    tgt_x = ast.unparse(_expand(fn, ast.Name(id=target_name or "?",
+                                             ctx=ast.Load())))
+    tgt_forms = {target_name, tgt_x, f"({tgt_x})"}
+    par_forms = {f"{t}.parent" for t in tgt_forms}
+    ok_dir = (isinstance(tdx, ast.BinOp) and isinstance(tdx.op, ast.Div) and
+              ast.unparse(tdx.left) in par_forms) or (
+        isinstance(tdx, ast.Call) and isinstance(tdx.func, ast.Attribute) and (
+            (tdx.func.attr == "joinpath" and len(tdx.args) == 1 and
+             ast.unparse(tdx.func.value) in par_forms) or
+            (tdx.func.attr == "with_name" and len(tdx.args) == 1 and
+             ast.unparse(tdx.func.value) in tgt_forms)))
     fresh = tmp_expr is not None and "fresh" in tf.tags_at(op, tmp_expr)
     rep.ob(rule, bool(ok_dir) and fresh, loc=fn.loc(op.ast), where=fn.qualname,
            construct=f"{tmp_name} = {short(tdef)}",
@@ -307,7 +325,7 @@ def check_rename(ctx: Context, rep, rule: str) -> None:
     rep.ob(rule, not missed, loc=fn.loc(), where=fn.qualname,
            construct="replace -> return",
            message="the function cannot return before the publish")
-    mode = ctx.arg(op.ast, 1, "mode")
+    mode = ctx.arg(op.ast, 0 if method_open else 1, "mode")
     rep.ob(rule, const_str(mode) in ("w", "x", "wt", "xt", "wb", "xb"),
            loc=fn.loc(op.ast), where=fn.qualname, construct=short(op.ast),
            message="temp file opened for (over)write, not append")
